@@ -3,7 +3,7 @@
 //! thread-local arena (reset per generated case; a stale handle panics = harness error).
 //! + - * / comparisons, powi, abs, clamp and conversions are exact; sqrt is exact on perfect squares and
 //! otherwise correct to 2^-192 relative; exp/ln/log2/sin/cos/tanh are evaluated in >=256-bit fixed point.
-//! Results whose denominator exceeds 512 bits are rounded to the 2^-256 grid (counted).
+//! Results whose denominator exceeds 512 bits are rounded to 320 significant bits (floating rounding, counted).
 #![allow(clippy::all)]
 use num::bigint::{BigInt, Sign};
 use num::rational::BigRational;
@@ -50,16 +50,25 @@ pub fn arena_rounded() -> u64 {
 fn normalise(r: BigRational, rounded: &mut u64) -> BigRational {
     if r.denom().bits() > 2 * GRID {
         *rounded += 1;
-        // round to nearest multiple of 2^-GRID (by shifting, no rational multiply)
+        // floating rounding to MANT significant bits: q = round(n * 2^s / d) with s chosen so that q has ~MANT bits,
+        // value = q / 2^s. (Relative, so tiny numbers such as exp(-300) keep their precision.)
+        const MANT: i64 = 320;
         let (n, d) = r.into_raw();
-        let num: BigInt = (n << (GRID + 1)) + &d;
-        let den: BigInt = d << 1u32;
+        if n.is_zero() {
+            return BigRational::zero();
+        }
+        let s: i64 = MANT - (n.bits() as i64 - d.bits() as i64);
+        let (num, den): (BigInt, BigInt) = if s >= 0 { ((n << (s as u64 + 1)) + &d, d << 1u32) } else { ((n << 1u32) + (&d << ((-s) as u64)), d << ((-s) as u64 + 1)) };
         let q = num::Integer::div_floor(&num, &den);
         if q.is_zero() {
             return BigRational::zero();
         }
-        let tz = q.trailing_zeros().unwrap_or(0).min(GRID);
-        BigRational::new_raw(q >> tz, BigInt::one() << (GRID - tz))
+        if s >= 0 {
+            let tz = q.trailing_zeros().unwrap_or(0).min(s as u64);
+            BigRational::new_raw(q >> tz, BigInt::one() << (s as u64 - tz))
+        } else {
+            BigRational::from_integer(q << ((-s) as u64))
+        }
     } else {
         r
     }
@@ -190,8 +199,13 @@ fn fx_exp(x: &BigRational) -> BigRational {
     for _ in 0..s {
         sum = fx_mul(&sum, &sum, prec);
     }
-    let res = if ki >= 0 { sum << (ki as u64) } else { sum >> ((-ki) as u64) };
-    fx_to_ratio(res, prec)
+    // sum ~ 2^prec in magnitude; exp(x) = sum * 2^ki / 2^prec, kept as an exact dyadic (no absolute-grid truncation)
+    let sum = (sum + (BigInt::one() << (prec - P - 1))) >> (prec - P);
+    if ki >= 0 {
+        BigRational::new(sum << (ki as u64), BigInt::one() << P)
+    } else {
+        BigRational::new(sum, BigInt::one() << (P + (-ki) as u64))
+    }
 }
 fn fx_ln(x: &BigRational) -> BigRational {
     // x > 0
